@@ -163,7 +163,11 @@ func nativeReplay(p *propertySpec, pkg string, witnesses []interface{}, work str
 	}
 	var lastOut []byte
 	for attempt := 0; attempt < len(witnesses)+2 && skip < len(witnesses); attempt++ {
-		cmd := exec.Command("timeout", "1500", "go", "test", "-vet=off", "-count=1", "-timeout", "20m", "-run", "^TestVerifReplay$", "-overlay", ovf, target)
+		args := []string{"1500", "go", "test", "-vet=off", "-count=1", "-timeout", "20m", "-run", "^TestVerifReplay$", "-overlay", ovf}
+		if replayWithRaceDetector {
+			args = append(args, "-race")
+		}
+		cmd := exec.Command("timeout", append(args, target)...)
 		cmd.Dir = repoDir
 		cmd.Env = append(os.Environ(), "GOFLAGS=-mod=mod", "GOPROXY=off", "GOSUMDB=off", "GOTOOLCHAIN=local",
 			"VERIF_REPLAY="+wf, "VERIF_REPLAY_OUT="+rf, fmt.Sprintf("VERIF_REPLAY_SKIP=%d", skip), "VERIF_REPLAY_TIMEOUT_S=60")
@@ -213,8 +217,50 @@ func nativeReplay(p *propertySpec, pkg string, witnesses []interface{}, work str
 		}
 		skip = next
 	}
-	_ = lastOut
+	lastReplayOutput = lastOut
 	return results, nil
+}
+
+// replayWithRaceDetector makes nativeReplay build the test binary with -race; lastReplayOutput is
+// the combined output of the last native run (the race detector writes its reports there).
+var (
+	replayWithRaceDetector bool
+	lastReplayOutput       []byte
+)
+
+// confirmRace runs one witness natively under the Go race detector (up to 3 times) and reports
+// whether the detector saw a race in one of the functions the monitor named.
+func confirmRace(p *propertySpec, pkg string, w interface{}, work string, msg string) (bool, string) {
+	replayWithRaceDetector = true
+	defer func() { replayWithRaceDetector = false }()
+	// functions named by the monitor: "... in (*T).M and goroutine 3 in f$1 are ..."
+	var fns []string
+	for _, part := range strings.Split(msg, " in ")[1:] {
+		f := strings.Fields(part)[0]
+		if i := strings.Index(f, "$"); i >= 0 {
+			f = f[:i]
+		}
+		// the detector prints "pkg.(*T).M.func1()", the monitor "(*pkg.T).M$1": compare by ".M"
+		if i := strings.LastIndex(f, "."); i >= 0 {
+			f = f[i:]
+		}
+		fns = append(fns, strings.TrimSuffix(f, ","))
+	}
+	for attempt := 0; attempt < 3; attempt++ {
+		if _, err := nativeReplay(p, pkg, []interface{}{w}, work); err != nil {
+			return false, err.Error()
+		}
+		out := string(lastReplayOutput)
+		if !strings.Contains(out, "WARNING: DATA RACE") {
+			continue
+		}
+		for _, f := range fns {
+			if f != "" && (strings.Contains(out, f+"(") || strings.Contains(out, f+".func")) {
+				return true, ""
+			}
+		}
+	}
+	return false, "the race detector did not report it in 3 runs"
 }
 
 func tail(b []byte, n int) string {
